@@ -119,7 +119,7 @@ def with_external(g, mask_nodes):
     g = copy.deepcopy(g)
     for i in mask_nodes:
         body = g["nodes"][i]["body"]
-        body.setdefault("args", []).append({"ext": "a"})
+        body.setdefault("list" if "list" in body else "args", []).append({"ext": "a"})
     if mask_nodes:
         g["external"] = {"a": "Lext"}
     return g
@@ -134,7 +134,7 @@ def enum_cases(tier):
         for gi, shape in enumerate(dags.all_dags(n)):
             if gi % stride:
                 continue
-            tasks = [i for i, s in enumerate(shape) if s["kind"] == "task"]
+            tasks = [i for i, s in enumerate(shape) if s["kind"] in ("task", "list")]
             for style in ("legacy", "taskspec"):
                 g = dags.dag_spec(shape, style, ["str", "tuple", "mixed"][gi % 3])
                 yield {"graph": g, "return_stats": bool(gi % 2)}
@@ -143,7 +143,7 @@ def enum_cases(tier):
                 if n <= 3:
                     masks = [c for r in range(1, len(tasks) + 1) for c in itertools.combinations(tasks, r)]
                 else:
-                    masks = {(tasks[0],), (tasks[-1],), tuple(tasks)}
+                    masks = {(tasks[0],), (tasks[-1],), tuple(tasks), tuple(tasks[-2:])}
                 for m in masks:
                     yield {"graph": with_external(g, m), "return_stats": False}
     # cyclic variants of the n<=3 DAGs: add one back edge (or self loop) to a task/list node
@@ -185,7 +185,7 @@ def random_case(draw):
     n = len(g["nodes"])
     case = {"graph": g, "return_stats": draw(st.booleans()), "insertion": list(draw(st.permutations(list(range(n)))))}
     if draw(st.integers(0, 3)) == 0:
-        tasks = [i for i in range(n) if "call" in g["nodes"][i]["body"]]
+        tasks = [i for i in range(n) if "call" in g["nodes"][i]["body"] or "list" in g["nodes"][i]["body"]]
         if tasks:
             m = draw(st.lists(st.sampled_from(tasks), min_size=1, max_size=3, unique=True))
             case["graph"] = with_external(g, m)
